@@ -251,8 +251,8 @@ func (w *world) sample() any {
 
 func (w *world) main() {
 	ch := simrt.Choose
-	w.lanes = 1 + ch("cfg.lanes", 4)
-	w.qsize = ch("cfg.qsize", 4)
+	w.lanes = []int{1, 2, 3, 4, 6}[ch("cfg.lanes", 5)]
+	w.qsize = []int{0, 1, 2, 3, 5}[ch("cfg.qsize", 5)]
 	// 0 and negative: a push that cannot wait at all (time.After fires at once)
 	w.timeout = []time.Duration{time.Millisecond, 10 * time.Millisecond, time.Second, 0, -time.Second}[ch("cfg.timeout", 5)]
 	if w.timeout <= 0 {
@@ -446,12 +446,6 @@ func (w *world) main() {
 		w.checkPending("loaded")
 	}
 
-	// the push timeout may be changed while nobody is pushing
-	if ch("cfg.retime", 3) == 0 {
-		simrt.Probe("timeout_changed_between_phases")
-		w.timeout = []time.Duration{time.Millisecond, 50 * time.Millisecond, 0}[ch("cfg.retime.to", 3)]
-		w.lane.SetTimeout(w.timeout)
-	}
 	if cancelFirst && w.live() {
 		// cancel with workers still gated and queues possibly full
 		if w.pendingAccepted() > 0 {
